@@ -1204,3 +1204,18 @@ Print Assumptions C19_is_64bit_generated.
 Theorem C19_round_up_pow2_overflow_refuted : c_ares_round_up_pow2 (2 ^ 62 + 1) 1 = UB SignedOverflow.
 Proof. exact round_up_pow2_overflow_refuted. Qed.
 Print Assumptions C19_round_up_pow2_overflow_refuted.
+
+(* ares_log2 (de Bruijn multiplication + constant table), GENERATED from the source: on every power
+   of two of a 64-bit word it is the exponent (finite domain, decided over all of it), and the two
+   call inputs of the generated ares_slist_max_level - ares_round_up_pow2(cnt + 1) and ares_log2 of
+   it - are exactly what the generated callees return *)
+Theorem C19_log2_generated_pow2 : forall k : Z, (0 <= k < 64)%Z -> c_ares_log2 (2 ^ k) 1 = Ok k.
+Proof. exact log2_generated_pow2. Qed.
+Print Assumptions C19_log2_generated_pow2.
+
+Theorem C19_slist_level_calls_agree_generated : forall k : nat,
+  (0 < k)%nat -> (Z.of_nat k <= 2 ^ 62)%Z ->
+  c_ares_round_up_pow2 (Z.of_nat k) 1 = Ok (Z.of_nat (sl_round_up_pow2 k)) /\
+  c_ares_log2 (Z.of_nat (sl_round_up_pow2 k)) 1 = Ok (Z.of_nat (sl_log2 (sl_round_up_pow2 k))).
+Proof. exact slist_level_calls_agree_generated. Qed.
+Print Assumptions C19_slist_level_calls_agree_generated.
